@@ -230,7 +230,7 @@ const vSubA = `
 interface Node { id: ID! }
 type Human implements Node { id: ID! name: String! best: Human meta: Meta }
 type Meta { section: Section }
-type Section { editors: [Human!]! }
+type Section { editors: [Human!]! chief: Human deputy: Human }
 type Query { node(id: ID!): Node me: Human }
 type Subscription { humanChanged: Human! tick: Int }
 `
@@ -245,7 +245,7 @@ func vSubWorld() *vWorld {
 	w.ents["h1"] = vEnt{"__typename": "Human", "id": "h1", "best": vRef{"Human", "h2"}, "meta": vRef{"Meta", "m1"}}
 	w.ents["h2"] = vEnt{"__typename": "Human", "id": "h2", "best": nil, "meta": nil}
 	w.ents["m1"] = vEnt{"__typename": "Meta", "id": "m1", "section": vRef{"Section", "s1"}}
-	w.ents["s1"] = vEnt{"__typename": "Section", "id": "s1", "editors": []vRef{{"Human", "h1"}, {"Human", "h2"}}}
+	w.ents["s1"] = vEnt{"__typename": "Section", "id": "s1", "editors": []vRef{{"Human", "h1"}, {"Human", "h2"}}, "chief": vRef{"Human", "h2"}, "deputy": vRef{"Human", "h1"}}
 	w.roots["Query.me"] = vRef{"Human", "h1"}
 	return w
 }
@@ -256,7 +256,7 @@ const vSubMerged = `
 interface Node { id: ID! }
 type Human implements Node { id: ID! name: String! best: Human meta: Meta phone(cc: Int): String! }
 type Meta { section: Section }
-type Section { editors: [Human!]! }
+type Section { editors: [Human!]! chief: Human deputy: Human }
 type Query { node(id: ID!): Node me: Human }
 type Subscription { humanChanged: Human! tick: Int }
 `
